@@ -323,57 +323,154 @@ theorem post_of_prepared (L : Layout) (M rhs : Nat → Nat → ℝ) (norm denorm
     concrete non-additive `norm` (squaring) separates `norm(z − t) − m` from `norm(z − t − m)` -/
 example : (fun x : ℝ => x * x) (3 - 1) - 1 ≠ (fun x : ℝ => x * x) (3 - 1 - 1) := by norm_num
 
-/-! ### refresh protocol -/
+/-! ### refresh protocol and target positions -/
 
-/-- `set_condition` — whatever arguments are passed and whatever happened before — leaves the object in sync -/
-theorem setCond_synced (s : HState) (p v e r : Option Nat) : hsynced (setCond s p v e r) := by
+/-- `set_condition` — whatever arguments are passed (including `fit_normalizer` / `fit_variogram`) and whatever
+    happened before — leaves the object in sync: matrix and isometrised conditioning positions belong to the model
+    AFTER the fit -/
+theorem setCond_synced (s : HState) (p v e r fn fv : Option Nat) : hsynced (setCond s p v e r fn fv) := by
   simp [hsynced, setCond, hinit]
 
-/-- a synced object computes what a freshly constructed one computes -/
-theorem synced_call_fresh (s : HState) (h : hsynced s) : callTok s = freshTok s := by
+/-- `set_condition` does not touch the stored target positions -/
+theorem setCond_tpos (s : HState) (p v e r fn fv : Option Nat) : (setCond s p v e r fn fv).tpos = s.tpos := by
+  simp [setCond]
+
+/-- after `set_condition(fit_variogram=True)` the current model is the fitted one, and matrix, conditioning
+    positions and right-hand sides all use it -/
+theorem setCond_fit (s : HState) (p v e r fn : Option Nat) (m : Nat) (t : Nat × Bool) :
+    (setCond s p v e r fn (some m)).model = m ∧
+    (callTok (setCond s p v e r fn (some m)) t).matModel = m ∧ (callTok (setCond s p v e r fn (some m)) t).kpModel = m ∧
+    (callTok (setCond s p v e r fn (some m)) t).rhsModel = m := by
+  simp [setCond, hinit, callTok]
+
+/-- a synced object computes, at ANY targets, what a freshly constructed one computes there -/
+theorem synced_call_fresh (s : HState) (h : hsynced s) (t : Nat × Bool) : callTok s t = freshTok s t := by
   obtain ⟨h1, h2, h3, h4, h5, h6⟩ := h
   simp [callTok, freshTok, hinit, h1, h2, h3, h4, h5, h6]
 
-/-- calls, re-assignments of mean/normaliser/trend and further `set_condition`s keep an object in sync -/
+/-- calls (with or without positions), `set_pos`, re-assignments of mean/normaliser/trend and further
+    `set_condition`s keep an object in sync -/
 theorem synced_step (s : HState) (h : hsynced s) (op : HOp) (hop : ∀ v, op ≠ .editModel v) :
     hsynced (hstep s op).1 := by
   cases op with
   | editModel v => exact absurd rfl (hop v)
   | editMNT v => simpa [hstep, hsynced] using h
-  | setCond p v e r => exact setCond_synced s p v e r
-  | call => simpa [hstep] using h
+  | setCond p v e r fn fv => exact setCond_synced s p v e r fn fv
+  | setPos p st => simpa [hstep, hsynced] using h
+  | call pos st via =>
+    simp only [hstep]
+    cases target s.tpos pos st via with
+    | none => simpa using h
+    | some t => simpa [hsynced] using h
 
-/-- every call of a history without model edits, started in a synced state, equals a fresh object -/
-theorem history_fresh : ∀ (ops : List HOp) (s : HState), hsynced s → (∀ op ∈ ops, ∀ v, op ≠ .editModel v) →
-    ∀ x ∈ hrun s ops, x.1 = x.2
-  | [], _, _, _, x, hx => by simp [hrun] at hx
-  | op :: ops, s, hs, hops, x, hx => by
+/-- **the stored positions are the given ones**: after any operation the object's `pos`/`mesh_type` are the
+    ones last given to it (by `set_pos` or by a call that passed positions) — never earlier ones, however
+    similar; model edits, re-assignments, `set_condition` and position-less calls leave them alone -/
+theorem step_tpos (s : HState) (g : Option (Nat × Bool)) (op : HOp) (h : s.tpos = g) :
+    (hstep s op).1.tpos = given g op := by
+  cases op with
+  | editModel v => simpa [hstep, given] using h
+  | editMNT v => simpa [hstep, given] using h
+  | setCond p v e r fn fv => simpa [hstep, given, setCond_tpos] using h
+  | setPos p st => simp [hstep, given]
+  | call pos st via =>
+    cases pos with
+    | some p => simp [hstep, target, given]
+    | none =>
+      simp only [hstep, given]
+      rcases hg : s.tpos with _ | ⟨q, m⟩
+      · simp [target, ← h, hg]
+      · by_cases hc : (via && (m != st)) = true
+        · simp [target, hc, ← h, hg]
+        · simp [target, hc, ← h, hg]
+
+/-- … along a whole history -/
+theorem final_tpos : ∀ (ops : List HOp) (s : HState) (g : Option (Nat × Bool)), s.tpos = g →
+    (hfinal s ops).tpos = ops.foldl given g
+  | [], _, _, h => by simpa [hfinal] using h
+  | op :: ops, s, g, h => by
+    have := final_tpos ops (hstep s op).1 (given g op) (step_tpos s g op h)
+    simpa [hfinal] using this
+
+/-- a call on a synced object whose stored positions are the last given ones returns what the specification
+    asks for: the fresh object evaluated at the requested targets (or the same refusal) -/
+theorem synced_call_spec (s : HState) (g : Option (Nat × Bool)) (hs : hsynced s) (hg : s.tpos = g)
+    (pos : Option Nat) (st via : Bool) :
+    (hstep s (.call pos st via)).2 = specRes s g (.call pos st via) := by
+  simp only [hstep, specRes, hg]
+  cases target g pos st via with
+  | none => rfl
+  | some t => simp [synced_call_fresh s hs t]
+
+/-- every call of a history without model edits, started in a synced state whose stored positions are the last
+    given ones, equals a fresh object evaluated at the requested targets -/
+theorem history_fresh : ∀ (ops : List HOp) (s : HState) (g : Option (Nat × Bool)), hsynced s → s.tpos = g →
+    (∀ op ∈ ops, ∀ v, op ≠ .editModel v) → ∀ x ∈ hrun s g ops, x.1 = x.2
+  | [], _, _, _, _, _, x, hx => by simp [hrun] at hx
+  | op :: ops, s, g, hs, hg, hops, x, hx => by
     have hop : ∀ v, op ≠ .editModel v := hops op (List.mem_cons_self ..)
     have hs' := synced_step s hs op hop
-    have hrest := history_fresh ops (hstep s op).1 hs' (fun o ho => hops o (List.mem_cons_of_mem _ ho))
+    have hg' := step_tpos s g op hg
+    have hrest := history_fresh ops (hstep s op).1 (given g op) hs' hg' (fun o ho => hops o (List.mem_cons_of_mem _ ho))
     rw [hrun] at hx
     cases op with
-    | call =>
-      simp only [hstep] at hx hrest
-      rcases List.mem_cons.mp hx with rfl | hx
-      · exact synced_call_fresh s hs
-      · exact hrest x hx
+    | call pos st via =>
+      have hc := synced_call_spec s g hs hg pos st via
+      rcases hy : specRes s g (.call pos st via) with _ | y
+      · rw [hy] at hc; simp only [hc, hy] at hx; exact hrest x hx
+      · rw [hy] at hc; simp only [hc, hy] at hx
+        rcases List.mem_cons.mp hx with rfl | hx
+        · rfl
+        · exact hrest x hx
     | editModel v => exact absurd rfl (hop v)
-    | editMNT v => simp only [hstep] at hx hrest; exact hrest x hx
-    | setCond p v e r => simp only [hstep] at hx hrest; exact hrest x hx
+    | editMNT v => simp only [hstep, specRes] at hx hrest; exact hrest x hx
+    | setCond p v e r fn fv => simp only [hstep, specRes] at hx hrest; exact hrest x hx
+    | setPos p st => simp only [hstep, specRes] at hx hrest; exact hrest x hx
 
 /-- **no stale kriging after `set_condition`**: after ANY state (any earlier history of model edits, calls,
-    re-conditionings) a `set_condition` in any argument form makes every later call — until the next model
-    edit — equal to the call on a freshly constructed object with the current model and conditions -/
-theorem set_condition_refreshes (s : HState) (p v e r : Option Nat) (ops : List HOp)
-    (hops : ∀ op ∈ ops, ∀ m, op ≠ .editModel m) : ∀ x ∈ hrun (setCond s p v e r) ops, x.1 = x.2 :=
-  history_fresh ops _ (setCond_synced s p v e r) hops
+    re-conditionings) whose stored positions are the last given ones, a `set_condition` in any argument form makes
+    every later call — with new, nearly equal, or no positions, under either mesh type, until the next model
+    edit (a fit inside `set_condition` is not one: it happens before the rebuild) — equal to the call of a freshly constructed object (current model and conditions) at the requested targets -/
+theorem set_condition_refreshes (s : HState) (g : Option (Nat × Bool)) (hg : s.tpos = g) (p v e r fn fv : Option Nat)
+    (ops : List HOp) (hops : ∀ op ∈ ops, ∀ m, op ≠ .editModel m) :
+    ∀ x ∈ hrun (setCond s p v e r fn fv) g ops, x.1 = x.2 :=
+  history_fresh ops _ g (setCond_synced s p v e r fn fv) (by rw [setCond_tpos]; exact hg) hops
+
+/-- a freshly constructed object: every history without model edits is served at the requested targets -/
+theorem fresh_object_history (model pos val err ext mnt : Nat) (ops : List HOp)
+    (hops : ∀ op ∈ ops, ∀ m, op ≠ .editModel m) : ∀ x ∈ hrun (hinit model pos val err ext mnt) none ops, x.1 = x.2 :=
+  history_fresh ops _ none (by simp [hsynced, hinit]) rfl hops
 
 /-- the protocol is not vacuous: a model edit without `set_condition` IS stale (the matrix belongs to the old
     model), and `set_condition(cond_val=…)` alone repairs it -/
-example : hrun (hinit 1 1 1 1 0 1) [.editModel 2, .call] ≠ [] ∧
-    (∀ x ∈ hrun (hinit 1 1 1 1 0 1) [.editModel 2, .call], x.1 ≠ x.2) ∧
-    (∀ x ∈ hrun (hinit 1 1 1 1 0 1) [.editModel 2, .setCond none (some 2) none none, .call], x.1 = x.2) := by
+example : hrun (hinit 1 1 1 1 0 1) none [.editModel 2, .call (some 5) false false] ≠ [] ∧
+    (∀ x ∈ hrun (hinit 1 1 1 1 0 1) none [.editModel 2, .call (some 5) false false], x.1 ≠ x.2) ∧
+    (∀ x ∈ hrun (hinit 1 1 1 1 0 1) none [.editModel 2, .setCond none (some 2) none none none none, .call (some 5) false false], x.1 = x.2) := by
+  decide
+
+/-- targets are not vacuous either: consecutive calls at positions 7 and 8 (distinct identifiers, e.g. a raster
+    shifted by a metre) are evaluated at 7 and at 8; a position-less call afterwards and one after
+    `set_condition` at 8; after `set_pos 9` at 9; a position-less call before any positions is refused; and
+    `kr.structured()` refuses to reuse unstructured positions -/
+example : (hrun (hinit 1 1 1 1 0 1) none
+      [.call none false false, .call (some 7) false false, .call (some 8) false false, .call none false false,
+       .setCond none (some 2) none none none none, .call none true false, .call none true true, .setPos 9 true, .call none false false]).map
+      (fun x => match x.1 with | .ok t => some (t.tpos, t.tmesh) | .noPos => none)
+    = [none, some (7, false), some (8, false), some (8, false), some (8, false), none, some (9, true)] := by
+  decide
+
+/-- a fit inside `set_condition` is served like a fresh object holding a copy of the fitted model (3) -/
+example : ∀ x ∈ hrun (hinit 1 1 1 1 0 1) none [.setCond none none none none none (some 3), .call (some 5) false false],
+    x.1 = x.2 ∧ x.1 = .ok (freshTok { hinit 1 1 1 1 0 1 with model := 3 } (5, false)) := by
+  decide
+
+/-- … whereas an object whose isometrised conditioning positions were computed BEFORE the fit is not -/
+example : callTok { setCond (hinit 1 1 1 1 0 1) none none none none none (some 3) with kpModel := 1 } (5, false)
+    ≠ freshTok (setCond (hinit 1 1 1 1 0 1) none none none none none (some 3)) (5, false) := by
+  decide
+
+/-- an object that put earlier positions back would NOT satisfy the specification: evaluated at 7 instead of 8 -/
+example : HRes.ok (callTok (hinit 1 1 1 1 0 1) (7, false)) ≠ HRes.ok (freshTok (hinit 1 1 1 1 0 1) (8, false)) := by
   decide
 
 /-- premises are satisfiable: a 2-point ordinary kriging system with an explicit inverse -/
